@@ -77,7 +77,7 @@ func c15(c *vc.Ctx) {
 	prefixMaxLen := vc.Pick(c, 16, 64) // longest kind 0/1 program whose proper prefixes are taken
 	mutDepth := vc.Pick(c, 0, 1)          // grammar depth of the programs whose documents are mutated
 	mutMaxSingles := vc.Pick(c, 6000, 6000)
-	pairMaxSingles := vc.Pick(c, 400, 800)
+	pairMaxSingles := vc.Pick(c, 720, 800)
 	fullMenu := &c15Menu{Values: c15ValueMenu(), Renames: []string{"Type", "Pos", "End", "Offset", "Line", "Col", "Nope"}, DocKeys: true, Types: append(append([]string{}, c15U.TypeNames...), "Nope", "")}
 	pairMenu := &c15Menu{Values: c15ValueMenu(), Renames: []string{"Type", "Pos", "Value", "Parts", "Op", "Nope"}, Types: c15U.TypeNames}
 	c.Rule = space.describe() + fmt.Sprintf("; PLUS every proper prefix of the corpus and depth<=1 programs of <=%d bytes, PLUS byte-string programs (every string of <=2 bytes over 12 bytes incl. invalid UTF-8, C0 controls, quotes, plus U+2028/U+2029/U+FFFD/surrogate/out-of-range encodings, in 6 lexical contexts), PLUS 9 generated programs whose positions reach and overflow the line (18 bit) and column (14 bit) fields; each program is parsed in all 5 variants with comments kept, and when that fails again with RecoverErrors(%d) (so recovered positions occur); programs containing '{' are additionally taken with every word split by SplitBraces (BraceExp nodes); a tree identical (reflect.DeepEqual) to that of an earlier variant of the same program is checked once. ROUND TRIP, for the root and EVERY sub-node (found by reflection, incl. comments) as the encoded node: Decode(Encode(n)) must succeed and be equal to n field by field (own reflective comparison: same dynamic types, pointer nil-ness, slices element-wise with nil==empty, strings/bools/integers/operators equal, every Pos identical except a recovered Pos which must decode to the zero Pos), Encode(Decode(Encode(n))) byte-identical; the same with Indent for the root. DECODE ROBUSTNESS: (1) for the documents of every node of the depth<=%d default-layout programs (parses in bash, zsh, bats; documents with <=%d single mutations; larger ones counted as skipped) EVERY single-point mutation: each JSON value replaced by each of %d menu values, each member deleted, each key renamed to each key occurring anywhere in the document and to Type/Pos/End/Offset/Line/Col/Nope, each array element deleted, each object's Type set to each of %d names; (2) for documents with <=%d reduced-menu mutations every ORDERED PAIR of mutations (the second enumerated on the mutated document); (3) the full matrix {Type:T, F:v} for every reachable struct type T (%d, non-node structs wrapped in a parent) x every field name F of any struct (%d names + Type/Pos/End/Nope) x every menu value v, [v], {Type:T2}, [{Type:T2}] for all %d node types T2; oracle: Decode returns without panicking; distinct = distinct root documents + distinct decode outcomes of matrix documents",
